@@ -16,7 +16,8 @@ import CifModel.Model.Fill
   `sto` (model side only; fresh target): the trace translated into a history of the STORE model (Model/ParserStoreOps.storeOps) and
   run through `Store.step` from a new CIF: `ok` = every call returned CIF_OK and the store then shows (`Store.abs`) exactly the CIF
   the parser model built (same enumeration orders); `ord` = the same content in another order; `BAD…` = the composition of the
-  two models fails on this input (a disagreement for the generator's `agree`); `skip` = the trace contains a call that
+  two models fails on this input (a disagreement for the generator's `agree`; `BADnumb`: a value handed to the store contains a
+  number object — the hypothesis of C07_parser_route would not be the parser's own guarantee); `skip` = the trace contains a call that
   `Store.Op` cannot express (lenient creation) or the target was not fresh.
 
   (formats: harness/x_parse.c).  The units the scanner sees are those of the one-fill case of Model/Fill.lean
@@ -92,6 +93,7 @@ def answer (args : List String) : Option String :=
     let cnt (p : SOp → Bool) : Nat := (tr.filter p).length
     let ops := s!"{cnt (fun | .mkBlock .. => true | _ => false)},{cnt (fun | .mkFrame .. => true | _ => false)},{cnt (fun | .setVal .. => true | _ => false)},{cnt (fun | .mkLoop .. => true | _ => false)},{cnt (fun | .addPkt .. => true | _ => false)},{cnt (fun | .prune .. => true | _ => false)}"
     let sto : String :=
+      if !(tr.all fun op => op.values.all numbFree) then "BADnumb" else
       if tgt != "e" then "skip" else
       match storeOps o tr with
       | none => "skip"
